@@ -17,8 +17,10 @@ R-C04-5  the views of two-sided images have the documented shape: for
          starting one track in; for non-interleaved files each side takes
          everything, leaves nothing and starts where the previous side ended
 
-Not decided: the stride formula inside FileView::read_block (an arithmetic
-identity over runtime values) and geometry selection.
+R-C04-6  the stride formula of FileView::read_block equals
+         skip + (x div take)*(take+leave) + x mod take as a polynomial identity
+
+Not decided: geometry selection.
 """
 import os
 import re
@@ -440,11 +442,70 @@ def _skip_for_side(fn, skip, loopvar, side, take, depth=0):
     return None
 
 
+# ---------------------------------------------------------------- R-C04-6
+def rule_stride_formula(prog, fixture=False):
+    from .. import poly
+    r = RuleResult("R-C04-6", "FileView::read_block forwards view sector x to file sector  skip + (x div take) * "
+                   "(take + leave) + (x mod take)  - compared as polynomials over the integers, so any algebraically "
+                   "equal spelling is accepted", floor=0 if fixture else 1)
+    for fn in prog.fnby("FileView::read_block", required=not fixture):
+        # which members are skip / take / leave: by position in the constructor's parameter list
+        ctor = [f for f in prog.functions.values() if f.cls == fn.cls and "inits" in f.raw and len(f.params) >= 8]
+        if len(ctor) != 1:
+            r.undecided.append("FileView: constructor with (.., initial_skip, take, leave, total) not found")
+            continue
+        role = {}
+        for init in ctor[0].raw["inits"]:
+            e = strip_all(init.get("init")) if init.get("init") else None
+            while e is not None and e.get("k") in ("CXXConstructExpr", "InitListExpr") and len(e.get("c", [])) == 1:
+                e = strip_all(e["c"][0])
+            if e is not None and e.get("k") == "DeclRefExpr" and e.get("dk") == "ParmVar":
+                idx = [i for i, p_ in enumerate(ctor[0].params) if p_["d"] == e["d"]]
+                if idx and idx[0] in (4, 5, 6):
+                    role[init.get("member")] = {4: "SKIP", 5: "TAKE", 6: "LEAVE"}[idx[0]]
+        if sorted(role.values()) != ["LEAVE", "SKIP", "TAKE"]:
+            r.undecided.append("FileView: cannot tell which members hold skip/take/leave")
+            continue
+        fwd = [n for n in fn.walk() if n.get("k") == "CXXMemberCallExpr" and (strip(n["c"][0]) or {}).get("n") == "read_block"]
+        if len(fwd) != 1:
+            r.undecided.append("FileView::read_block: expected one forwarded read, found %d" % len(fwd))
+            continue
+        x = fn.params[0]["n"]
+        b = poly.Builder(prog, fn)
+        try:
+            got = b.build(fwd[0]["c"][1])
+        except poly.NotPolynomial as ex:
+            r.undecided.append("FileView::read_block: the forwarded position is not a polynomial the rule can form (%s)" % ex)
+            continue
+        # rename member atoms to their roles
+        def rename(p):
+            out = {}
+            for m, c in p.items():
+                m2 = []
+                for a in m:
+                    for member, ro in role.items():
+                        a = a.replace(member, ro)
+                    m2.append(a.replace(x, "X"))
+                out[tuple(sorted(m2))] = out.get(tuple(sorted(m2)), 0) + c
+            return out
+        got = rename(got)
+        X, S, T, L = poly.atom("X"), poly.atom("SKIP"), poly.atom("TAKE"), poly.atom("LEAVE")
+        D = poly.atom("DIV(X,TAKE)")
+        want = poly.add(poly.add(S, poly.mul(D, poly.add(T, L))), poly.add(X, poly.mul(D, T), -1))
+        key = "%s::%s::position" % (fn.relfile(), fn.qn)
+        ok = got == want
+        r.add(key, fn.loc(fwd[0]), ok, "skip + (x/take)*(take+leave) + x%take" if ok else
+              "the position forwarded is  %s  but the layout (take sectors, leave sectors, repeated after an initial "
+              "skip) requires  %s : sectors are fetched from the wrong place in the image file" %
+              (poly.text(got), poly.text(want)))
+    return r
+
+
 def run(ctx):
     prog = ctx.prog("dfs", "N")
     root = ctx.root or facts.REPO
     return [rule_fileview_bound(prog), rule_short_block(prog), rule_mmb_table(prog, root), rule_slot_position(prog),
-            rule_view_shapes(prog)]
+            rule_view_shapes(prog), rule_stride_formula(prog)]
 
 
 SELFTESTS = []
